@@ -48,6 +48,9 @@ def strategy(tier):
         "alias": st.sampled_from([None, None, "follow", "nofollow"]),
         # a subdirectory with several hundred entries, its only CMake file sorting last
         "bigdir": st.sampled_from([False, False, False, True]),
+        # sibling directories whose files end in a pending declaration / start with an undocumented definition, and a
+        # directory in which a commonly excluded file sits next to files that stay
+        "neighbours": st.sampled_from([False, True, False]),
     })
 
 
@@ -90,7 +93,14 @@ def other_inputs(sb, n, tag, twin_of=None):
 def evaluate(case):
     import cminx
     res = Result()
-    tree = T.fill(T.ensure_lowercase_cmake(case["tree"]))
+    raw = case["tree"]
+    if case.get("neighbours") and not case["lone"]:
+        raw = {"files": raw["files"], "dirs": dict(raw["dirs"], **{
+            "zd1": {"files": {"z_pending.cmake": 8}, "dirs": {}},
+            "zd2": {"files": {"a_first.cmake": 1}, "dirs": {}},
+            "zd3": {"files": {"a_first.cmake": 9}, "dirs": {}},
+            "zd4": {"files": {"a.cmake": 0, "pre_one.cmake": 2, "ax.cmake": 1, "zz_keep.cmake": 3}, "dirs": {}}})}
+    tree = T.fill(T.ensure_lowercase_cmake(raw))
     files = [p for p, _ in S.tree_files(tree) if T.is_cmake(os.path.basename(p))]
     top_files = sorted(n for n in tree["files"] if n.endswith(".cmake"))
     kinds = [h[0] for h in case["history"]]
@@ -266,6 +276,8 @@ def evaluate(case):
             res.labels.append("symlinked-directory:" + alias)
         if case.get("bigdir") and not case["lone"]:
             res.labels.append("directory-with-700-entries")
+        if case.get("neighbours") and not case["lone"]:
+            res.labels.append("neighbour-directories-with-pending-declarations")
         if shared_excluded:
             res.labels.append("shared-top-index-excluded")
         special = {"prefilled-whitespace-twin", "via-symlinked-parent", "prefilled-output", "cwd-inside-sub", "moved", "cwd-rel", "cwd-dotslash", "cwd-updown", "cwd-dot", "others-before", "others-both", "api-successive"}
@@ -276,6 +288,6 @@ def evaluate(case):
 
 
 def describe(case):
-    tree = T.fill(T.ensure_lowercase_cmake(case["tree"]))
+    tree = T.fill(T.ensure_lowercase_cmake(case["tree"]))      # (without the 'neighbours' directories)
     return {"files": [p for p, _ in S.tree_files(tree)], "lone": case["lone"], "prefix": case["prefix"], "ext": case["ext"],
             "history": case["history"]}
